@@ -61,7 +61,7 @@ let get (r : 'a res) : 'a =
   | Ok a -> a
   | ErrOOB (i, l) -> raise (Err (Printf.sprintf "OOB:%d:%d" (int_of_n i) (int_of_n l)))
   | ErrFuel -> raise (Err "FUEL")
-  | ErrExn c -> raise (Err (match int_of_n c with 3 -> "DIVZERO" | k -> Printf.sprintf "EXN:%d" k))
+  | ErrExn c -> raise (Err (match int_of_n c with 9 -> "FPE" | k -> Printf.sprintf "EXN:%d" k))
 
 let b x = if x then "1" else "0"
 let list_str l = "[" ^ String.concat "," (List.map sz l) ^ "]"
